@@ -90,6 +90,22 @@ func c19SharedInputs(c *Ctx) {
 						*log = append(*log, fmt.Sprint("nb", q.Count()))
 						q.Close()
 					}
+					if r.Chance(0.3) {
+						// batch creation with component values from the shared list (a zero-sized marker comes first)
+						bw := ecs.NewBuilderWith(w, tBuildWith...).WithRelation(wids[3])
+						if r.Chance(0.5) {
+							bw.NewBatch(3, t)
+						} else {
+							q := bw.NewBatchQ(2, t)
+							n := 0
+							for q.Next() {
+								n++
+							}
+							*log = append(*log, fmt.Sprint("nbq", n))
+						}
+						bn := ecs.NewBuilderWith(w, tAssign...)
+						bn.NewBatch(2)
+					}
 				}
 			case 9:
 				alive = append(alive, w.NewEntity(tNew...))
